@@ -16,9 +16,9 @@ Snapshot == [nfd |-> Cardinality(open), npath |-> Cardinality(wdT), nbyuser |-> 
              wl |-> byUser]
 GInit == Init /\ hist = <<>> /\ draining = FALSE
 Lbl(x) == hist' = Append(hist, x)
-\* API calls are made on a drained stream (what a call does to kevents that are still pending is left to the random
-\* families: the trace specification can only say "optional" about them); file system operations pile up until a drain
-Vis == \/ (actq = <<>> /\ \E sp \in Spellings : (Add(sp) /\ Lbl(<<"add", sp>>)) \/ (RemoveWatch(sp) /\ Lbl(<<"remove", sp>>)))
+\* Add and Remove may be made while kevents are pending (kqrun logs the whole stretch between two drains as one burst
+\* with the notes of the knotes that still exist at its end); Close is made on a drained stream
+Vis == \/ \E sp \in Spellings : (Add(sp) /\ Lbl(<<"add", sp>>)) \/ (RemoveWatch(sp) /\ Lbl(<<"remove", sp>>))
        \/ \E n \in Names : (FsCreate(n) /\ Lbl(<<"create", n>>)) \/ (FsUnlink(n) /\ Lbl(<<"unlink", n>>)) \/ (FsWrite(n) /\ Lbl(<<"write", n>>)) \/ (FsChmod(n) /\ Lbl(<<"chmod", n>>))
        \/ \E n, m \in Names : FsRename(n, m) /\ Lbl(<<"rename", n, m>>)
        \/ (actq = <<>> /\ Close /\ Lbl(<<"close">>))
